@@ -23,6 +23,28 @@ INS = [
 FRAME_UPDATES = {"SetFrequency": "frequency", "SetPhase": "phase", "SetScale": "scale", "ShiftFrequency": "frequency", "ShiftPhase": "phase"}
 
 
+CLASSICAL = ("Arithmetic", "BinaryLogic", "UnaryLogic", "Comparison", "Move", "Exchange", "Load", "Store")
+
+
+def conj_value(v):
+    """conjugate every Complex literal inside a mirsym value (in place)"""
+    v = deref(v)
+    if isinstance(v, Agg):
+        if v.ty == "Complex" and v.fields is not None and isinstance(v.fields[1], float): v.fields[1] = -v.fields[1]
+        for x in (v.fields or []): conj_value(x)
+    elif isinstance(v, VecObj):
+        for x in v.items: conj_value(x)
+    elif isinstance(v, BoxObj): conj_value(v.fields[0])
+
+
+def conj_tree(t):
+    if isinstance(t, tuple):
+        if t[0] == "Complex": return ("Complex", [t[1][0], -t[1][1]])
+        return (t[0], [conj_tree(x) for x in t[1]])
+    if isinstance(t, list): return [conj_tree(x) for x in t]
+    return t
+
+
 def expr_real(td, e, decl):
     """reference: real-valued at every depth. decl: {region name: type name}"""
     k = e[0]
@@ -89,10 +111,22 @@ class C30(Check):
         m.ctx = {"types": ty, "names": names}
         by = {t.name: t for t in INS}
         decls = [f"DECLARE {r} {t}[2]" for r, t in zip(R, ty) if t != "none"]
-        body = [instantiate(m, by[nm], f"i{i}_")[0] for i, nm in enumerate(names)]
+        inst = [instantiate(m, by[nm], f"i{i}_") for i, nm in enumerate(names)]
+        body = [a for a, _ in inst]
+        # number literals with a negative imaginary part cannot be written in Quil text: built by conjugating the parsed literal
+        conj = any("imag" in nm for nm in names) and m.choose([(False, None), (True, None)])
+        m.ctx["conj"] = bool(conj)
+        if conj:
+            for b in body: conj_value(b)
         whole = self.verdict(m, self.program(m, decls, body))
         singles = [self.verdict(m, self.program(m, decls, [b])) for b in body]
         m.require("per-instruction", ",".join(names), whole == all(singles))
+        # "against the program's declarations": a classical instruction that names an undeclared region does not type-check
+        undeclared = [i for i, t in enumerate(ty) if t == "none"]
+        for (a, hv), nm, ok in zip(inst, names, singles):
+            if to_tree(m, a)[0] not in CLASSICAL or not undeclared: continue
+            cond = or_any(v.sym == i for v in hv.values() if isinstance(v, Str) and v.s is None for i in undeclared)
+            if m.branch_bool(cond): m.require("undeclared-rejected", nm, not ok)
         # SET-* / SHIFT-*: real at every depth
         declmap = {r: t.capitalize() for r, t in zip(R, ty) if t != "none"}
         for b, nm, ok in zip(body, names, singles):
@@ -106,6 +140,8 @@ class C30(Check):
         sw_tpl = {nm: Tpl(by[nm].name, by[nm].text, **{h: ("str", list(reversed(R))) for h in by[nm].order}) for nm in set(names)}
         for nm in sw_tpl: sw_tpl[nm].tree = by[nm].tree
         sbody = [instantiate(m, sw_tpl[nm], f"i{i}_")[0] for i, nm in enumerate(names)]
+        if conj:
+            for b in sbody: conj_value(b)
         m.require("renaming-invariant", ",".join(names), self.verdict(m, self.program(m, swapped_decls, sbody)) == whole)
         if n > 1:
             m.require("reorder-invariant", ",".join(names), self.verdict(m, self.program(m, decls, list(reversed(body)))) == whole)
@@ -131,17 +167,19 @@ class C30(Check):
         sw = {"a": "b", "b": "a"}
         sdecls = [f"DECLARE {sw[r]} {t}[2]" for r, t in zip(R, ctx["types"]) if t != "none"]
         sbody = [by[nm].render({h: (sw[v] if isinstance(v, str) and v in sw else v) for h, v in hole_values(by[nm], f"i{i}_", model).items()}) for i, nm in enumerate(ctx["names"])]
-        return {"decls": decls, "body": body, "sdecls": sdecls, "sbody": sbody, "types": ctx["types"], "kind": kind, "detail": detail}
+        refs = [sorted({v for v in hole_values(by[nm], f"i{i}_", model).values() if isinstance(v, str) and v in R}) for i, nm in enumerate(ctx["names"])]
+        return {"decls": decls, "body": body, "sdecls": sdecls, "sbody": sbody, "types": ctx["types"], "conj": bool(ctx.get("conj")), "refs": refs, "kind": kind, "detail": detail}
 
     def native(self, runner, case):
         d, b = case["decls"], case["body"]
         progs = ["\n".join(d + b)] + ["\n".join(d + [x]) for x in b] + ["\n".join(case["sdecls"] + case["sbody"]), "\n".join(d + list(reversed(b))), "\n".join(d + b + [b[0]])]
-        r = runner.call({"op": "type_check", "programs": progs})
+        r = runner.call({"op": "type_check", "programs": progs, "conj": bool(case.get("conj"))})
         if "results" not in r or any(isinstance(x, dict) and "input_error" in x for x in r["results"]): return None, r
         v = [x == "Ok" for x in r["results"]]
         n = len(b)
         pr = runner.call({"op": "parse_instructions", "texts": b})["results"]
         trees = [parse_debug(x["ok"][0]) for x in pr]
+        if case.get("conj"): trees = [conj_tree(t) for t in trees]
         return {"whole": v[0], "singles": v[1:1 + n], "renamed": v[1 + n], "reordered": v[2 + n], "duplicated": v[3 + n], "trees": trees}, r
 
     def confirm(self, runner, case):
@@ -156,6 +194,9 @@ class C30(Check):
             if t[0] in FRAME_UPDATES:
                 e = fld(self.td, t[1][0], t[0], FRAME_UPDATES[t[0]])
                 if ok != expr_real(self.td, e, declmap): failed.append("frame-update-real:" + t[0])
+        declared = set(declmap)
+        for t, ok, refs in zip(obs["trees"], obs["singles"], case.get("refs") or [[]] * len(obs["trees"])):
+            if t[0] in CLASSICAL and any(r not in declared for r in refs) and ok: failed.append("undeclared-rejected:" + t[0])
         if obs["renamed"] != obs["whole"]: failed.append("renaming-invariant")
         if obs["reordered"] != obs["whole"]: failed.append("reorder-invariant")
         if obs["duplicated"] != obs["whole"]: failed.append("duplication-invariant")
